@@ -20,7 +20,7 @@ CATCH_ALL = {"Exception", "BaseException"}
 
 
 class Node:
-    __slots__ = ("id", "kind", "ast", "lineno", "handler_types", "depth", "copy_of")
+    __slots__ = ("id", "kind", "ast", "lineno", "handler_types", "depth", "copy_of", "noreturn")
 
     def __init__(self, nid: int, kind: str, node: Optional[ast.AST]):
         self.id = nid
@@ -29,6 +29,7 @@ class Node:
         self.lineno = getattr(node, "lineno", 0) if node is not None else 0
         self.handler_types: Optional[List[str]] = None
         self.copy_of = None
+        self.noreturn = False
 
     def __repr__(self):
         txt = ""
@@ -225,6 +226,7 @@ class CFG:
         if may_raise(st, self._attr_raises):
             self._exc_edges(n, ctx)
         if self._noreturn(st):
+            n.noreturn = True
             return []
         return [(n.id, None)]
 
@@ -399,6 +401,14 @@ class CFG:
                 seen.add(a)
                 todo.append(a)
         return seen
+
+    def intended(self, a: int, b: int, label) -> bool:
+        """Edge filter: normal control flow plus *deliberate* exceptional exits (raise statements and calls of
+        never-returning functions such as Runnable.backoff); incidental 'this call might throw' edges are left out."""
+        if label != "exc":
+            return True
+        na = self.nodes[a]
+        return na.noreturn or (na.kind == "stmt" and isinstance(na.ast, ast.Raise))
 
     def dominators(self, follow=None) -> Dict[int, Set[int]]:
         follow = follow or (lambda a, b, l: True)
